@@ -6,7 +6,7 @@ from translate import PIN
 LEVEL = "proof"
 MANIFEST = dict(
     text='The quantifier is a finite table (164 modules, ~20 500 items): the kernel evaluates the decidable predicate PackModule.OK (item addressability Item.WF, key resolution, module naming, refresh window) over the WHOLE table regenerated from the working tree (decide +kernel, one obligation per module, assembled into `all_modules_ok`), proves the three known ill-formed items really are ill-formed, and proves every module pinned at the audited commit is present field-for-field (`layout_immutable`). Search: independent Python re-computation of well-formedness, pin diff item by item, FILES-reply naming for all 895 combinations.'
-         ' Since session 3: the EFFECTIVE read footprint of every pinned item is probed through the real read path (all ones / only the pinned field / everything but it). Session 4: the real GeckoAsyncSpa._connect is driven with a scripted FILES reply for every shipped (platform, cfg, log) and must import exactly the shipped modules.',
+         ' Since session 3: the EFFECTIVE read footprint of every pinned item is probed through the real read path (all ones / only the pinned field / everything but it). Session 4: the real GeckoAsyncSpa._connect is driven with a scripted FILES reply for every shipped (platform, cfg, log) and must import exactly the shipped modules. Session 5: the layout of a CONNECTED spa - tables instantiated over a block, both facades built and read on several wirings (single-speed / two-speed pumps, nothing, everything) - every live item must still have the layout its module publishes (live-layout).',
     note='Trusted: Lean kernel; harness/packs.py extraction by import (what the library sees after accessor __init__) + ast check for duplicate dict keys; pins/layout-236b7b1.json.gz is the layout at the audited commit. The generator input SpaPackStruct.xml is absent: well-formedness is judged on the shipped Python only.',
     technique='Lean 4 kernel evaluation (decide +kernel) of decidable predicates over the complete regenerated tables',
     design='5/C18',
@@ -289,6 +289,74 @@ def search_connect_lookup(ctx, mods):
     return len(recs)
 
 
+def _layout_of(acc):
+    return {"pos": acc.pos, "len": acc.length, "bitpos": acc.bitpos, "mask": getattr(acc, "bitmask", None), "type": acc.type,
+            "labels": None if acc.items is None else list(acc.items), "rw": acc.read_write}
+
+
+def search_live_layout(ctx, mods):
+    """the layout of a CONNECTED spa: the tables are instantiated over a block, both facades are built on them (they hand the items'
+    label lists on as device options) and read - afterwards every live item must still have the layout its module publishes
+    (position, width, bit field, labels in order, write permission), for wirings with single-speed pumps, two-speed pumps,
+    nothing wired, everything wired"""
+    from props import c12
+    rng = ctx.rng
+    plat = c12.platform_pairs(mods)
+    pairs = []
+    for name, d in sorted(plat.items()):
+        if d["cfg"] and d["log"]:
+            cs = sorted(d["cfg"], key=lambda m: m["file"])
+            ls = sorted(d["log"], key=lambda m: m["file"])
+            pairs.append((cs[-1]["file"], ls[-1]["file"]))
+            if not ctx.quick:
+                pairs += [(c["file"], ls[len(ls) // 2]["file"]) for c in cs[:-1]]
+    n = 0
+    for cfg, log in pairs:
+        try:
+            fresh = c12.StubSpa(cfg, log)
+        except Exception:  # noqa  (reported by the import search)
+            continue
+        published = {k: _layout_of(a) for k, a in fresh.accessors.items()}
+        outs = list(dict.fromkeys(fresh.struct.all_outputs))
+        labs = {o: list(fresh.accessors[o].items or []) for o in outs}
+
+        def wiring(pred):
+            asg, used = [], set()
+            for o in outs:
+                for l in labs[o]:
+                    if l and l not in used and pred(l):
+                        asg.append((o, l)); used.add(l); break
+            return asg
+        wirings = [[], wiring(lambda l: l.endswith("H") and l[:1] == "P"), wiring(lambda l: l.endswith("L") and l[:1] == "P"),
+                   wiring(lambda l: l not in ("NA",)), wiring(lambda l: l[:1] == "P") + wiring(lambda l: l in ("BLO", "LI", "Waterfall"))]
+        for asg in wirings:
+            try:
+                spa = c12.StubSpa(cfg, log)
+                block, _ = c12.encode_assignment(spa, asg)
+                spa.struct.set_status_block(block)
+                for build in (c12.build_async, c12.build_sync):
+                    try:
+                        f, _, _ = build(spa)
+                        for d in list(getattr(f, "pumps", [])) + list(getattr(f, "blowers", [])) + list(getattr(f, "lights", [])):
+                            getattr(d, "modes", None); str(d)
+                    except Exception:  # noqa  (C11 / C12 report facades that cannot be built)
+                        pass
+            except Exception as e:  # noqa
+                ctx.violation(f"live-layout:raised:{cfg}", {"kind": "live-layout", "cfg": cfg, "log": log, "wiring": c12.asg_str(asg)}, "the tables are instantiated and wired",
+                              f"{type(e).__name__}: {e}")
+                continue
+            n += 1
+            live = {k: _layout_of(a) for k, a in spa.accessors.items()}
+            diff = [k for k in published if live.get(k) != published[k]]
+            if diff:
+                k = diff[0]
+                ctx.violation(f"live-layout:{cfg}:{log}:{k}", {"kind": "live-layout", "cfg": cfg, "log": log, "wiring": c12.asg_str(asg)},
+                              {"item": k, "published": published[k]}, {"after the facades were built": live.get(k), "items_changed": len(diff)})
+                break
+    ctx.cov["live_layout_spas"] = n
+    return n
+
+
 def run(ctx):
     st = translate.run(["Packs", "Pinned"])
     ctx.cov["translator"] = st
@@ -306,6 +374,10 @@ def run(ctx):
     search_effective_layout(ctx)
     n = search_files_reply(ctx, mods, names)
     n += search_connect_lookup(ctx, mods)
+    try:
+        n += search_live_layout(ctx, mods)
+    except Exception as e:  # noqa
+        ctx.obligation_broken("harness:live-layout", f"{type(e).__name__}: {e}")
     # the kernel evaluated one obligation per module (+ one pin equality per pinned module) on top of the property theorems
     per_module = len([m for m in mods if m["kind"] in ("cfg", "log", "pack")]) + len(packs.load_pin(PIN))
     if not ctx.broken:
@@ -331,6 +403,8 @@ def replay(inp):
     search_effective_layout(ctx)
     search_files_reply(ctx, mods, names)
     search_connect_lookup(ctx, mods)
+    if inp.get("kind") == "live-layout":
+        search_live_layout(ctx, mods)
     for v in ctx.violations:
         if v["input"] == inp:
             return True, v["observed"]
